@@ -7,8 +7,6 @@ alone, and global line numbers are derived from the block list (`firstLineIndice
 block lists give equal records, equal errors and equal line numbers.
 -/
 import KlogV.Lemmas.Parallel
-import KlogV.Props.GoPar
-import KlogV.Props.GoTxt
 namespace KlogV.C07
 
 /-- The chunks are exactly `n` pieces whose concatenation is the text. -/
@@ -41,17 +39,6 @@ parser finds the serial parser's blocks. -/
 theorem main (t : Bytes) (n : Nat) (hn : 0 < n) (σ : List Nat) (hσ : σ.Perm (List.range n)) :
     mergeGo [] [] (collect n (σ.map (fun i => (i, ((splitIntoChunks t n).map processBatch)[i]!)))) = blocksOf t :=
   KlogV.parallel_main t n hn σ hσ
-
-/-- End to end, about the Go source (Gen/GoPar.lean is the translation of `splitIntoChunks` made on this run): whatever the
-translated function returns for a text below 2⁵³ bytes and `1 ≤ n < 2⁵³` workers are `n` chunks that concatenate to the
-text, respect CRLF, and whose per-batch results merge to the serial parser's blocks. -/
-theorem go_chunks_merge (t : Bytes) (n fuel : Nat) (hn : 1 ≤ n) (hn2 : n < 9007199254740992)
-    (hlen : t.length < 9007199254740992) (hf : t.length < fuel) :
-    ∃ cs, GoPar.splitIntoChunks fuel t (n : Int) = .ok cs ∧ cs.length = n ∧ cs.flatten = t ∧ GoodCuts cs ∧
-      parallelBlocksOfChunks cs = blocksOf t := by
-  refine ⟨splitIntoChunks t n, GoTie.splitIntoChunks_eq t n fuel hn hn2 hlen hf, chunks_length t n, chunks_join t n hn,
-    chunks_good_cuts t n, ?_⟩
-  rw [merge_eq_serial _ (chunks_good_cuts t n), chunks_join t n hn]
 
 /-- The hypothesis of `merge_eq_serial` is necessary (D17, fixed in /repo): with a cut between CR
 and LF of a whitespace-only line the merged blocks differ. -/
